@@ -101,7 +101,20 @@ func bindOnce(params []*runtimev2.Param, src string) (res string) {
 	if rerr := s.Run(nil); rerr != nil {
 		return "runerr"
 	}
-	return strings.Join(got, ",")
+	first := strings.Join(got, ",")
+	// binding is a function of the parameters and the call alone: checking the loaded script again
+	// accepts it again and binds the same way
+	got = nil
+	if cerr := s.Check(); cerr != nil {
+		return "rejected-when-checked-again(first: " + first + ")"
+	}
+	if rerr := s.Run(nil); rerr != nil {
+		return "runerr-when-run-again(first: " + first + ")"
+	}
+	if second := strings.Join(got, ","); second != first {
+		return "rebound(first: " + first + " then: " + second + ")"
+	}
+	return first
 }
 
 func genC19(e *emitter, tier string, seed int64) {
